@@ -27,9 +27,9 @@ m = {
     "setup_cmd": "bin/check setup",
     "hooks": {
         "guard": "sdjwt_verif",
-        "enable": "RUSTFLAGS --cfg sdjwt_verif (set in /verif/harness/.cargo/config.toml; the harness builds /repo as a path dependency)",
+        "enable": "RUSTFLAGS='--cfg sdjwt_verif --check-cfg cfg(sdjwt_verif)' (set in /verif/harness/.cargo/config.toml for the harness builds, and by bin/check when it runs the repository's own tests with the trace hook: SDJWT_VERIF_TRACE=<file> cargo test)",
         "baseline_off_cmd": "cd /repo && cargo test --workspace --no-fail-fast --offline",
-        "source_commits": [],
+        "source_commits": ["e93ee70", "2785849"],
         "add_only": True,
     },
     "engines": [{
